@@ -162,6 +162,48 @@ theorem C10_reads_bounded (st : Store) (d : RawDesc) :
   · simp only [readAt, List.length_take, List.length_drop]
     omega
 
+/-! ### the arithmetic of `io.SectionReader`, in wrapping int64
+
+`NewSectionReader(r, off, n)` sets `limit = n + off` when `off <= MaxInt64 - n` (all in wrapping
+int64) and `MaxInt64` otherwise; `Read` slices its buffer to `p[0 : limit - off]` when the
+position is below the limit.  A negative bound there is the panic the campaign found twice
+(D4c: an in-use descriptor with offset −1, size −1; D12: table offset MinInt64+1, size MinInt64). -/
+
+/-- `limit` as Go computes it -/
+def goLimit (off n : Int) : Int := if off ≤ wrap64 (maxI64 - n) then wrap64 (n + off) else maxI64
+
+/-- the first `Read` of a fresh section panics: position below the limit and a negative bound -/
+def goReadPanics (off n : Int) : Bool := decide (off < goLimit off n) && decide (wrap64 (goLimit off n - off) < 0)
+
+/-- **no panic for what the loader lets through**: a non-negative offset (any size, negative
+    included) never gives a negative slice bound — the conditions of `C10_loaded_safe` and of the
+    table-offset check are exactly what `io.SectionReader` needs -/
+theorem C10_section_no_panic (off n : Int) (h0 : 0 ≤ off) (h1 : off ≤ maxI64)
+    (hn : -9223372036854775808 ≤ n ∧ n ≤ maxI64) : goReadPanics off n = false := by
+  unfold goReadPanics goLimit wrap64 maxI64 at *
+  simp only [Bool.and_eq_false_iff, decide_eq_false_iff_not]
+  by_cases hc : off ≤ (9223372036854775807 - n + 9223372036854775808) % 18446744073709551616 - 9223372036854775808
+  · simp only [hc, ↓reduceIte]
+    right
+    omega
+  · simp only [hc, ↓reduceIte]
+    right
+    omega
+
+/-- for those inputs the model's `sectionLimit` is Go's limit -/
+theorem goLimit_eq_sectionLimit (off n : Int) (h0 : 0 ≤ off) (h1 : off ≤ maxI64)
+    (hn : -9223372036854775808 ≤ n ∧ n ≤ maxI64) : goLimit off n = sectionLimit off n := by
+  unfold goLimit sectionLimit wrap64 maxI64 at *
+  by_cases hc : off ≤ (9223372036854775807 - n + 9223372036854775808) % 18446744073709551616 - 9223372036854775808
+  · simp only [hc, ↓reduceIte]; omega
+  · simp only [hc, ↓reduceIte]
+
+/-- D4c and D12 as the code stood: both inputs make the first read panic -/
+theorem D4c_witness : goReadPanics (-1) (-1) = true := by decide
+theorem D12_witness : goReadPanics (-9223372036854775807) (-9223372036854775808) = true := by decide
+/-- a negative offset alone does not always panic (the reason single-field grids missed D12) -/
+example : goReadPanics (-1) 585 = false ∧ goReadPanics (-9223372036854775807) 585 = false := by decide
+
 /-- non-vacuity: a 128-byte header claiming 2^40 descriptors is refused after reading none -/
 example : readCount (zeros 128) 128 (585 * 1099511627776) 1099511627776 0 = 0 := by
   unfold readCount
